@@ -143,7 +143,7 @@ Definition rk_table (outer : rdarg -> bool) (rd : rdarg) : rkind :=
          | _ => KTypeError
          end
   else KTuple.
-(* input_sxr tests `if return_dict:`; output_sxr tests `if return_dict is True:` (sxr_module.py:263) *)
+(* input_sxr and (since the fix of sxr_module.py:263) output_sxr test `if return_dict:` *)
 Definition input_return_kind : rdarg -> rkind := rk_table rd_truthy.
-Definition output_outer_test : rdarg -> bool := rd_is_true.
+Definition output_outer_test : rdarg -> bool := rd_truthy.
 Definition output_return_kind : rdarg -> rkind := rk_table output_outer_test.
